@@ -260,7 +260,8 @@ class Series:
     def __eq__(s, o): return s._binop(o, lambda a, b: a == b)
     def __ne__(s, o): return s._binop(o, lambda a, b: a != b)
     __hash__ = None
-    def __invert__(self): return Series([core.sym_not(v) for v in self._v], Index(self._i._l), self.name)
+    def __invert__(self):
+        r = Series([core.sym_not(v) for v in self._v], Index(self._i._l), self.name); r._nonbool = getattr(self, '_nonbool', False); return r
     def __neg__(self): return Series([-v for v in self._v], Index(self._i._l), self.name)
     def __abs__(self): return Series([abs(v) for v in self._v], Index(self._i._l), self.name)
     def __repr__(self): return 'minipd.Series(%r, %r)' % (self._v, self._i._l)
@@ -305,11 +306,23 @@ class Arr2:
             out.append(m)
         return Arr(out)
 
-class Columns(list):
-    """column labels: a list that pandas code treats like an Index (intersection / union are sorted, as pandas does for sortable labels)"""
-    def intersection(self, o): return Columns(sorted(c for c in self if c in list(o)))
-    def union(self, o): return Columns(sorted(set(self) | set(o)))
-    def equals(self, o): return list(self) == list(o)
+class Columns:
+    """column labels (deliberately not a list subclass: a pandas Index is not a list, and the code under test treats lists specially);
+    intersection / union are sorted, as pandas does for sortable labels"""
+    def __init__(self, items = ()): self._c = list(items)
+    def __iter__(self): return iter(self._c)
+    def __len__(self): return len(self._c)
+    def __contains__(self, x): return x in self._c
+    def __getitem__(self, i): return Columns(self._c[i]) if isinstance(i, slice) else self._c[i]
+    def append(self, x): self._c.append(x)
+    def __eq__(self, o): return list(self._c) == list(o) if isinstance(o, (Columns, list, tuple)) else False
+    __hash__ = None
+    def intersection(self, o): return Columns(sorted(c for c in self._c if c in list(o)))
+    def union(self, o): return Columns(sorted(set(self._c) | set(o)))
+    def equals(self, o): return list(self._c) == list(o)
+    @property
+    def values(self): return Arr(self._c)
+    def __repr__(self): return 'Columns(%r)' % (self._c,)
 
 class _FILoc:
     def __init__(self, f): self.f = f
@@ -381,7 +394,7 @@ class DataFrame:
         if isinstance(item, str) or (isinstance(item, int) and item in self._c):
             if item not in self._c: raise KeyError(item)
             return Series(self._c[item], Index(self._i._l, self._i.name), item)
-        nonbool = getattr(item, 'nonbool', False)
+        nonbool = getattr(item, 'nonbool', False) or getattr(item, '_nonbool', False)
         if isinstance(item, Series): item = list(item._v)
         if isinstance(item, (Arr, Mask)): item = list(item)
         if isinstance(item, list) and len(item) == 0 and nonbool:
@@ -433,7 +446,9 @@ class DataFrame:
             m = self._c[self._cols[0]][i]
             for c in self._cols[1:]: m = _and(m, self._c[c][i])         # boolean frames only (row-wise all)
             out.append(m)
-        return Series(out, Index(self._i._l, self._i.name))
+        r = Series(out, Index(self._i._l, self._i.name))
+        r._nonbool = len(out) == 0            # pandas: the row-wise min of an empty boolean frame is an empty *float* Series
+        return r
     def _binop(self, o, f):
         if isinstance(o, DataFrame):
             if list(o._cols) != list(self._cols) or not o._i.equals(self._i): raise Unsupported('minipd: arithmetic of differently shaped frames')
